@@ -47,7 +47,9 @@ import (
 func init() { register("C12W", c12RefreshWorker) }
 
 type c12rStep struct {
-	Kind   string `json:"kind"` // refresh | enqueue | finish
+	Kind   string `json:"kind"`           // refresh | enqueue | finish | shortage
+	Sem    int    `json:"sem,omitempty"`  // shortage: 1 memory, 2 vmem, 3 processes
+	Free   int64  `json:"free,omitempty"` // shortage: what the OS is said to have free
 	Job    int    `json:"job,omitempty"`
 	T64    int64  `json:"threads_64ths,omitempty"`
 	MemMb  int64  `json:"mem_mb,omitempty"`
@@ -65,6 +67,7 @@ type c12rSpec struct {
 	// RLIMIT_NPROC soft = hard = Nproc: a small `ulimit -u` (0 = leave the limit alone)
 	Nproc int        `json:"ulimit_u,omitempty"`
 	Steps []c12rStep `json:"steps"`
+	Shape string     `json:"shape,omitempty"`
 	Dir   string     `json:"dir"`
 }
 
@@ -287,6 +290,21 @@ func c12RefreshWorker(c *Ctx) {
 				}
 			}
 			out.After = c12rSnapshot(sems)
+		case "shortage":
+			// the environment reports a shortage through the entry point refreshResources uses
+			// for this semaphore, with observed-style arguments (free, usage = the reservations)
+			out.Before = c12rSnapshot(sems)
+			if sm := sems[st.Sem]; sm != nil {
+				if st.Sem == 2 {
+					sm.UpdateActual(st.Free)
+				} else {
+					sm.UpdateFreeUsed(st.Free, sm.Reserved())
+				}
+			}
+			if !settle() {
+				out.Outcome = "unsettled"
+			}
+			out.After = c12rSnapshot(sems)
 		case "finish":
 			out.Before = c12rSnapshot(sems)
 			started, ended := readLog(logPath)
@@ -385,6 +403,33 @@ func c12rGen(c *Ctx, maxGB int) c12rSpec {
 	if rng.Intn(10) < 7 {
 		refresh() // idle refresh, as StepNodes does before the first job
 	}
+	if rng.Intn(3) == 0 {
+		// "an availability recovery reaches a waiter when nothing else is running": job X runs; the
+		// environment reports a shortage of one resource; job Y (fits the limit, not what is
+		// available) is enqueued and waits; X ends — nobody is left to release anything; the
+		// shortage is over (the real OS has plenty); refreshResources runs as StepNodes calls it
+		k := []int{1, 1, 3}[rng.Intn(3)]
+		if sp.MaxVmemMB > 0 && rng.Intn(2) == 0 {
+			k = 2
+		}
+		sp.Steps = append(sp.Steps, c12rStep{Kind: "enqueue", Job: 0, T64: 64, MemMb: lim / 4, What: "a quarter of the memory limit"})
+		sh := c12rStep{Kind: "shortage", Sem: k, Free: int64(rng.Intn(100))}
+		if k == 3 {
+			sh.Free = -int64(16 + rng.Intn(30)) // more processes of this user than the rlimit allows
+		}
+		sp.Steps = append(sp.Steps, sh)
+		y := c12rStep{Kind: "enqueue", Job: 1, T64: 64, MemMb: lim, What: "exactly the memory limit"}
+		if k != 2 && rng.Intn(2) == 0 {
+			y.MemMb, y.What = lim/2, "half the memory limit"
+		}
+		sp.Steps = append(sp.Steps, y, c12rStep{Kind: "finish", Job: 0})
+		refresh()
+		if rng.Intn(2) == 0 {
+			sp.Steps = append(sp.Steps, c12rStep{Kind: "finish", Job: 1}, c12rStep{Kind: "refresh"})
+		}
+		sp.Shape = "recovery"
+		return sp
+	}
 	for n := 3 + rng.Intn(6); n > 0; n-- {
 		switch k := rng.Intn(10); {
 		case k < 4 && job < 4:
@@ -480,6 +525,30 @@ func c12rFullOffer(k int, sem c12rSem, reservedSeen int64, o *core.VerifRefreshO
 	}
 }
 
+// c12rOfferFits: what the OS reports leaves room for the oldest waiter of this semaphore.
+// Memory, vmem, cores: the OS offers the whole limit (c12rFullOffer).  Processes: the whole limit
+// is never on offer on a shared machine, and the usage refreshResources sees includes the
+// worker's own few threads; there the test is that the user's process count leaves the head's
+// need (plus 64 for the jitter of other users' processes) below the rlimit and below what the
+// semaphore can still hand out.
+func c12rOfferFits(k int, sem c12rSem, reservedSeen int64, o *core.VerifRefreshObs, limitLoad bool) bool {
+	if k != 3 {
+		return c12rFullOffer(k, sem, reservedSeen, o, limitLoad)
+	}
+	if len(sem.Waiting) == 0 {
+		return false
+	}
+	adjust := int64(o.Procs) + 45 - reservedSeen
+	if adjust < 0 {
+		adjust = 0
+	}
+	room := o.RlimCur - int64(o.UserProcs)
+	if m := sem.Max - sem.Res - adjust; m < room {
+		room = m
+	}
+	return sem.Waiting[0]+64 <= room
+}
+
 // c12rJudge: model comparison and monitors over a worker's step list.
 func c12rJudge(c *Ctx, sp c12rSpec, outs []c12rOut, countHist bool) (vs []*c12rVerdict, exact, bracketed int, skip string) {
 	r := c.Res
@@ -543,8 +612,24 @@ func c12rJudge(c *Ctx, sp c12rSpec, outs []c12rOut, countHist bool) (vs []*c12rV
 			if o.Err != "" || o.ObsBefore == nil || o.ObsBefore.Err != "" || o.ObsAfter.Err != "" {
 				return nil, exact, bracketed, "refreshResources / observation error: " + o.Err
 			}
+			// refreshResources samples the process tree first and updates the semaphores afterwards:
+			// what it saw of the tree is the (settled) tree before the call; a job granted BY the
+			// refresh starts its shell at once and shows up in the observation after.  So the tree
+			// figures are always the ones before; free memory, load and the user's process count
+			// (other users' activity) are bracketed by before/after.
 			if o.ObsBefore.Rss != o.ObsAfter.Rss || o.ObsBefore.Vmem != o.ObsAfter.Vmem {
-				return nil, exact, bracketed, "the worker's own process tree moved during a refresh"
+				granted := false
+				for k := range o.Before {
+					if len(o.After[k].Waiting) < len(o.Before[k].Waiting) {
+						granted = true
+					}
+				}
+				if !granted {
+					return nil, exact, bracketed, "the worker's own process tree moved during a refresh that granted nothing"
+				}
+				oa := *o.ObsAfter
+				oa.Rss, oa.Vmem, oa.Procs = o.ObsBefore.Rss, o.ObsBefore.Vmem, o.ObsBefore.Procs
+				o.ObsAfter = &oa
 			}
 			var reqs [][]string
 			var ks []int
@@ -574,6 +659,37 @@ func c12rJudge(c *Ctx, sp c12rSpec, outs []c12rOut, countHist bool) (vs []*c12rV
 				ks = append(ks, k)
 			}
 			reps := c.Drv.AskBatch(reqs)
+			// A waiter granted BY this refresh goes on at once to the semaphores further down the
+			// acquisition order (and may start, or park there): on those the reservations are the
+			// model's plus what such jobs have taken meanwhile — at most what all jobs enqueued so
+			// far acquire there.
+			grantedReal := false
+			for k := range o.Before {
+				if len(o.After[k].Waiting) < len(o.Before[k].Waiting) {
+					grantedReal = true
+				}
+			}
+			var extra [4]int64
+			njobs := 0
+			for _, p := range outs[:i] {
+				if p.Kind == "enqueue" {
+					njobs++
+					for k := range extra {
+						if p.Amounts[k] > 0 {
+							extra[k] += p.Amounts[k]
+						}
+					}
+				}
+			}
+			resOK := func(k int, real c12rSem, mr int64, mq int) bool {
+				if !grantedReal {
+					return real.Res == mr && len(real.Waiting) == mq
+				}
+				if len(o.After[k].Waiting) < len(o.Before[k].Waiting) {
+					return len(real.Waiting) == mq && real.Res >= mr && real.Res <= mr+extra[k]
+				}
+				return real.Res >= mr && real.Res <= mr+extra[k] && len(real.Waiting) >= mq && len(real.Waiting) <= mq+njobs
+			}
 			for j, k := range ks {
 				parse := func(rep string) (cur, res int64, ql int, ok bool) {
 					f := strings.SplitN(rep, ":", 4)
@@ -600,7 +716,7 @@ func c12rJudge(c *Ctx, sp c12rSpec, outs []c12rOut, countHist bool) (vs []*c12rV
 					if countHist {
 						r.hist("refresh_comparisons_exact_" + name)
 					}
-					if a.Cur != c1 || a.Res != r1 || len(a.Waiting) != q1 {
+					if a.Cur != c1 || !resOK(k, a, r1, q1) {
 						add(&c12rVerdict{"correspondence", "C12:refresh:model-mismatch",
 							fmt.Sprintf("step %d: after refreshResources the %s semaphore is CurrentSize=%d Reserved=%d QueueLength=%d; the model (same answer for the observations before and after the call) says %d/%d/%d",
 								i, name, a.Cur, a.Res, len(a.Waiting), c1, r1, q1), i})
@@ -623,7 +739,7 @@ func c12rJudge(c *Ctx, sp c12rSpec, outs []c12rOut, countHist bool) (vs []*c12rV
 							fmt.Sprintf("step %d: after refreshResources the %s semaphore has CurrentSize=%d, outside what the model gives for the observations before (%d) and after (%d) the call (tolerance %d)",
 								i, name, a.Cur, c1, c2, slack), i})
 					}
-					if k == 3 && (a.Res != r1 || len(a.Waiting) != q1) && (a.Res != r2 || len(a.Waiting) != q2) {
+					if k == 3 && !resOK(k, a, r1, q1) && !resOK(k, a, r2, q2) {
 						add(&c12rVerdict{"correspondence", "C12:refresh:model-mismatch",
 							fmt.Sprintf("step %d: after refreshResources the %s semaphore has Reserved=%d QueueLength=%d; model %d/%d", i, name, a.Res, len(a.Waiting), r1, q1), i})
 					}
@@ -635,7 +751,7 @@ func c12rJudge(c *Ctx, sp c12rSpec, outs []c12rOut, countHist bool) (vs []*c12rV
 					continue
 				}
 				seen := o.Before[k].Res
-				if c12rFullOffer(k, a, seen, o.ObsBefore, sp.LimitLoad) && c12rFullOffer(k, a, seen, o.ObsAfter, sp.LimitLoad) &&
+				if c12rOfferFits(k, a, seen, o.ObsBefore, sp.LimitLoad) && c12rOfferFits(k, a, seen, o.ObsAfter, sp.LimitLoad) &&
 					a.Waiting[0] <= a.Max-a.Res {
 					add(&c12rVerdict{"property", "C12:refresh:fitting-job-parked",
 						fmt.Sprintf("step %d: after refreshResources a request for %d waits on the %s semaphore although it fits maxSize %d - Reserved %d and the OS offers the whole limit (CurrentSize()=%d)",
@@ -754,6 +870,20 @@ func runC12Refresh(c *Ctx) {
 		sj, _ := json.Marshal(sp.Steps)
 		r.count(fmt.Sprintf("refresh|%d|%d|%d|%v|%s", sp.MaxCores, sp.MaxMemGB, sp.MaxVmemMB, sp.LimitLoad, sj), nontrivial)
 		r.hist("refresh_scenarios")
+		if sp.Shape == "recovery" {
+			r.hist("refresh_recovery_scenarios")
+			for j, o := range outs {
+				if o.Kind == "finish" && j > 0 {
+					for _, a := range o.After {
+						if a.Present && len(a.Waiting) > 0 {
+							r.hist("refresh_recovery_scenarios_with_a_lone_waiter_before_the_refresh")
+							break
+						}
+					}
+					break
+				}
+			}
+		}
 		r.Histogram["refresh_steps"] += len(sp.Steps)
 		if i%11 == 0 {
 			r.sample(map[string]interface{}{"scenario": sp, "worker_steps": outs})
